@@ -16,6 +16,8 @@ Reading guide
 import EPV.Lemmas.PrattDerive
 import EPV.Lemmas.PrattComplete
 import EPV.Lemmas.PrattFuel
+import EPV.Lemmas.PrattEbnf
+import EPV.Lemmas.PrattSource
 namespace EPV.C04
 open EPV.Syn EPV.Pratt
 
@@ -152,5 +154,34 @@ theorem parse_fuel_enough (T : Tbl) (toks : List Tok) : parse T toks ≠ .error 
     simp only [Except.error.injEq] at hh
     subst hh
     exact h he
+
+/-- **soundness of the reference parser** (`ebnf_sound`): whatever the executable EBNF parser of the spec returns
+is an EBNF derivation from the start symbol with the input as its tokens — for every level list. -/
+theorem ebnf_sound (levels : List Level) (ep : Bool) (syms : List String) (toks : List Tok) (t : Tree)
+    (h : ebnfParse (gramOf levels ep syms) toks = some t) :
+    derivable (gramOf levels ep syms) 0 t = true ∧ t.yield = toks :=
+  ebnfParse_sound _ (gramOf_ok levels ep syms) toks t h
+
+/-- hence the driver's cross-check is a theorem: when the reference parser accepts an input and no guard of the
+table rejects a node of its tree, the parser model returns exactly the reference tree. -/
+theorem model_eq_reference (T : Tbl) (levels : List Level) (ep : Bool) (syms : List String) (bp : Nat → Nat) (K : Nat)
+    (hc : Consistent T (gramOf levels ep syms) bp K) (hpos : 0 < bp 0) (toks : List Tok) (t : Tree)
+    (h : ebnfParse (gramOf levels ep syms) toks = some t) (hg : guardsPass T t = true) :
+    parse T toks = .ok t := by
+  obtain ⟨hd, hy⟩ := ebnf_sound levels ep syms toks t h
+  rw [← hy]
+  exact pratt_complete T _ bp K hc hpos t hd hg
+
+open EPV.Source in
+/-- **textual `source` round trip** (certified check): if the pieces of the rendered `source` text of a parse
+result are separable (`chainOK`, a decidable condition the driver evaluates for every case), then the lexeme
+model of the tokenizer splits the text into exactly the lexemes of the tokens the tree was parsed from — hence
+(`parse_yield_idem`) re-parsing the text gives the same tree.  Any table, any input. -/
+theorem source_text_roundtrip (T : Tbl) (X : TextTbl) (toks : List Tok) (t : Tree) (h : parse T toks = .ok t)
+    (hc : chainOK X (render X t) = true) :
+    lexAll X (textOf (render X t)).length (textOf (render X t)) = some (toks.flatMap (tokLex X)) ∧
+      parse T t.yield = .ok t := by
+  refine ⟨?_, parse_yield_idem T toks t h⟩
+  rw [lex_render X t hc _ (Nat.le_refl _), pratt_yield T toks t h]
 
 end EPV.C04
